@@ -59,22 +59,43 @@ NestOf(c, stmts) ==
     [] OTHER -> <<SetCap("c", stmts), Text("["), PrintS(NameE("c")), Text("]")>>
 NestExp(c, e) == CASE c.nest = "none" -> e [] c.nest = "loop" -> e \o e [] OTHER -> "[" \o e \o "]"
 
+(* how the template that defines/imports and calls the macros is reached: as the entry, through include, embed, or as the parent
+   of an entry template that only extends it *)
+Hosts == {"entry", "include", "embed", "parent"}
 Configs ==
-  { [form |-> f, k |-> k, na |-> na, use |-> u, nest |-> n, special |-> "none"]
+  { [form |-> f, k |-> k, na |-> na, use |-> u, nest |-> n, special |-> "none", host |-> "entry"]
       : f \in Forms, k \in 0..4, na \in 0..6, u \in Uses, n \in Nests }
-  \cup { [form |-> f, k |-> 1, na |-> na, use |-> u, nest |-> "none", special |-> "outer"] : f \in Forms, na \in 0..2, u \in Uses }
-  \cup { [form |-> f, k |-> 0, na |-> 0, use |-> "print", nest |-> "none", special |-> "unknown"] : f \in {"alias", "from"} }
+  \cup { [form |-> f, k |-> k, na |-> 1, use |-> u, nest |-> n, special |-> "none", host |-> h]
+      : f \in Forms, k \in 1..2, u \in {"print", "macroarg"}, n \in {"none", "loop"}, h \in Hosts \ {"entry"} }
+  \cup { [form |-> f, k |-> 1, na |-> na, use |-> u, nest |-> "none", special |-> "outer", host |-> h] : f \in Forms, na \in 0..2, u \in Uses, h \in Hosts }
+  \cup { [form |-> f, k |-> 0, na |-> 0, use |-> "print", nest |-> "none", special |-> "unknown", host |-> "entry"] : f \in {"alias", "from"} }
+  (* the caller's variables carry the parameters' names: arguments are evaluated in the caller's scope, all of them before any
+     parameter is bound *)
+  \cup { [form |-> f, k |-> 2, na |-> 2, use |-> u, nest |-> n, special |-> "swap", host |-> "entry"] : f \in Forms, u \in {"print", "macroarg"}, n \in {"none", "loop"} }
 
 Program(c) ==
   CASE c.special = "outer" -> Prelude(c.form) \o <<Text("^")>> \o UseOf(c, CallM(c.form, "outer", Args(c.na))) \o <<Text("$")>>
     [] c.special = "unknown" ->
          IF c.form = "alias" THEN <<ImportS(StrE("lib"), "L"), Text("^"), PrintS(AttrCall(NameE("L"), "nope", <<>>)), Text("$")>>
          ELSE <<Text("^"), FromS(StrE("lib"), << <<"nope", "nope">> >>), Text("$")>>
+    [] c.special = "swap" ->
+         Prelude(c.form) \o <<SetS("p1", StrE("A")), SetS("p2", StrE("B")), Text("^")>>
+         \o (IF c.nest = "loop"
+             THEN <<ForS("", "p1", ArrE(<<StrE("x"), StrE("y")>>), NoE, UseOf(c, CallM(c.form, "m2", <<AttrDot(NameE("loop"), "index"), NameE("p1")>>)), <<>>, FALSE)>>
+             ELSE UseOf(c, CallM(c.form, "m2", <<NameE("p2"), NameE("p1")>>)))
+         \o <<Text("$")>>
     [] OTHER -> Prelude(c.form) \o <<Text("^")>> \o NestOf(c, UseOf(c, CallM(c.form, MName(c.k), Args(c.na)))) \o <<Text("$")>>
 Templates(c) == ("t" :> Program(c)) @@ ("lib" :> Defs("lib"))
+                @@ (IF c.host = "entry" THEN <<>>
+                    ELSE ("top" :> CASE c.host = "include" -> <<IncludeS(StrE("t"), NoE, FALSE)>>
+                                     [] c.host = "embed" -> <<EmbedS(StrE("t"), NoE, FALSE, <<>>)>>
+                                     [] OTHER -> <<ExtendsS(StrE("t"))>>))
+Entry(c) == IF c.host = "entry" THEN "t" ELSE "top"
 Expected(c) ==
   CASE c.special = "outer" -> "^" \o UseExp(c, "<" \o Result(1, IF c.na >= 1 THEN 1 ELSE 0) \o ">") \o "$"
     [] c.special = "unknown" -> "^"
+    [] c.special = "swap" -> IF c.nest = "loop" THEN "^" \o UseExp(c, "m2(1,x,)") \o UseExp(c, "m2(2,y,)") \o "$"
+                             ELSE "^" \o UseExp(c, "m2(B,A,)") \o "$"
     [] OTHER -> "^" \o NestExp(c, UseExp(c, Result(c.k, c.na))) \o "$"
 
 Cases == SetToSeq(Configs)
@@ -82,8 +103,8 @@ Picked == 1..Len(Cases)
 Init == GenInit(v_lvl, v_idx)
 Next == GenNext(v_lvl, v_idx, Picked, 32)
 Cur == Cases[v_idx]
-Ref == Execute(Templates(Cur), "t", EmptyScope)
-Out == v_lvl < 2 \/ Emit(RenderVec("C11-" \o ToString(v_idx), Cur.form, Templates(Cur), "t", EmptyScope,
+Ref == Execute(Templates(Cur), Entry(Cur), EmptyScope)
+Out == v_lvl < 2 \/ Emit(RenderVec("C11-" \o ToString(v_idx), Cur.form, Templates(Cur), Entry(Cur), EmptyScope,
                                    [nt |-> Cur.k # Cur.na \/ Cur.special = "outer" \/ Cur.use = "macroarg"]))
 
 --------------------------------------------------------------------------
@@ -92,8 +113,8 @@ PositionalBinding == v_lvl = 2 => LET R == Ref IN
   /\ MainOut(R) = S2B(Expected(Cur))
   /\ R.status = (IF Cur.special = "unknown" THEN "err" ELSE "ok")
 (* the call forms agree (they all equal the same declarative value; stated directly for the self form) *)
-ThreeFormsAgree == (v_lvl = 2 /\ Cur.special = "none") =>
-  MainOut(Ref) = MainOut(Execute(Templates([Cur EXCEPT !.form = "self"]), "t", EmptyScope))
+ThreeFormsAgree == (v_lvl = 2 /\ Cur.special \in {"none", "swap"}) =>
+  MainOut(Ref) = MainOut(Execute(Templates([Cur EXCEPT !.form = "self"]), Entry(Cur), EmptyScope))
 (* a callback inside a macro body sees the name of the template that defines the macro *)
 NameInMacro == v_lvl = 2 =>
   LET lg == Ref.log IN \A q \in 1..Len(lg) : (lg[q].e = "cb" /\ lg[q].name = "nul") => lg[q].args[1] = Str(S2B(lg[q].tname))
